@@ -129,7 +129,12 @@ def present(atoms, rng, noise=0.0, rotate=True):
     if rotate:
         R = crystals.random_rotation(rng)
         a = Atoms(numbers=a.get_atomic_numbers(), positions=a.get_positions() @ R.T, cell=np.array(a.get_cell()) @ R.T, pbc=a.get_pbc())
-    a.set_positions(a.get_positions() + rng.uniform(-3, 3, 3))
+    # rigid translation: small, or far outside the box (a slab shifted by more than its vacuum; unwrapped coordinates)
+    if rng.random() < 0.5:
+        a.set_positions(a.get_positions() + rng.uniform(-3, 3, 3))
+    else:
+        v = rng.normal(size=3)
+        a.set_positions(a.get_positions() + v / np.linalg.norm(v) * rng.uniform(5, 40))
     a = a[rng.permutation(len(a))]
     return a
 
